@@ -36,6 +36,10 @@ pub enum Act {
     None,
     Add(String),
     Del(String),
+    /// add_all_rules_breakpoints
+    AddAll,
+    /// delete_all_breakpoints
+    DelAll,
 }
 
 #[derive(Clone, Debug, PartialEq, Eq, Hash)]
@@ -54,12 +58,18 @@ pub struct Scenario {
     pub sched_seed: u64,
     pub schedules: usize,
     pub pct: bool,
+    /// names of the grammar's rules (derived from the grammar text)
+    pub all_rules: Vec<String>,
+}
+
+fn rule_names(grammar: &str) -> Vec<String> {
+    pest_meta::parse_and_optimize(grammar).map(|(_, r)| r.into_iter().map(|r| r.name).collect()).unwrap_or_default()
 }
 
 fn scen_json(s: &Scenario) -> Value {
     json!({
         "grammar": s.grammar, "rule": s.rule, "input": s.input, "breakpoints": s.breakpoints,
-        "script": s.script.iter().map(|a| match a { Act::None => json!("none"), Act::Add(n) => json!({"add": n}), Act::Del(n) => json!({"del": n}) }).collect::<Vec<_>>(),
+        "script": s.script.iter().map(|a| match a { Act::None => json!("none"), Act::Add(n) => json!({"add": n}), Act::Del(n) => json!({"del": n}), Act::AddAll => json!("add_all"), Act::DelAll => json!("del_all") }).collect::<Vec<_>>(),
         "rerun_at": s.rerun_at, "rerun_immediately": s.rerun_immediately, "cap": s.cap, "sched_seed": s.sched_seed, "schedules": s.schedules, "pct": s.pct,
     })
 }
@@ -78,6 +88,10 @@ fn scen_from_json(v: &Value) -> Scenario {
                     Act::Add(n.as_str().unwrap().into())
                 } else if let Some(n) = a.get("del") {
                     Act::Del(n.as_str().unwrap().into())
+                } else if a.as_str() == Some("add_all") {
+                    Act::AddAll
+                } else if a.as_str() == Some("del_all") {
+                    Act::DelAll
                 } else {
                     Act::None
                 }
@@ -89,6 +103,7 @@ fn scen_from_json(v: &Value) -> Scenario {
         sched_seed: v["sched_seed"].as_u64().unwrap_or(1),
         schedules: v["schedules"].as_u64().unwrap_or(200) as usize,
         pct: v["pct"].as_bool().unwrap_or(false),
+        all_rules: rule_names(v["grammar"].as_str().unwrap()),
     }
 }
 
@@ -119,14 +134,40 @@ fn entries_and_end(grammar: &str, rule: &str, input: &str) -> Option<(Vec<(Strin
     Some((v, end))
 }
 
+/// The final event of a plain VM run whose listener asks it to stop at entry number `at`.
+fn cut_event(grammar: &str, rule: &str, input: &str, at: usize) -> DebuggerEvent {
+    let (_, rules) = pest_meta::parse_and_optimize(grammar).expect("grammar");
+    let n = StdArc::new(StdMutex::new(0usize));
+    let n2 = n.clone();
+    let vm = pest_vm::Vm::new_with_listener(
+        rules,
+        Box::new(move |_, _| {
+            let mut g = n2.lock().unwrap();
+            *g += 1;
+            *g > at
+        }),
+    );
+    match vm.parse(rule, input) {
+        Ok(_) => DebuggerEvent::Eof,
+        Err(e) => DebuggerEvent::Error(e.to_string()),
+    }
+}
+
 /// Expected event list: walk the entries with the breakpoint set in force; the controller's k-th
 /// action is applied while stopped at the k-th hit. Returns the events up to and including the
 /// final one, or up to the re-run point.
+thread_local! {
+    /// names of the loaded grammar's rules (what add_all_rules_breakpoints adds) and the entry index of the re-run point
+    static ALL_RULES: std::cell::RefCell<Vec<String>> = const { std::cell::RefCell::new(vec![]) };
+    static STOP_IDX: std::cell::Cell<Option<usize>> = const { std::cell::Cell::new(None) };
+}
+
 fn expected(entries: &[(String, usize)], end: &DebuggerEvent, bps: &[String], script: &[Act], rerun_at: Option<usize>) -> (Vec<DebuggerEvent>, Vec<String>, bool) {
     let mut set: std::collections::BTreeSet<String> = bps.iter().cloned().collect();
     let mut out = vec![];
     let mut k = 0;
-    for (r, p) in entries {
+    STOP_IDX.with(|c| c.set(None));
+    for (idx, (r, p)) in entries.iter().enumerate() {
         if set.contains(r) {
             out.push(DebuggerEvent::Breakpoint(r.clone(), *p));
             match script.get(k) {
@@ -136,9 +177,12 @@ fn expected(entries: &[(String, usize)], end: &DebuggerEvent, bps: &[String], sc
                 Some(Act::Del(n)) => {
                     set.remove(n);
                 }
+                Some(Act::AddAll) => ALL_RULES.with(|a| set.extend(a.borrow().iter().cloned())),
+                Some(Act::DelAll) => set.clear(),
                 _ => {}
             }
             if rerun_at == Some(k) {
+                STOP_IDX.with(|c| c.set(Some(idx)));
                 return (out, set.into_iter().collect(), true);
             }
             k += 1;
@@ -153,7 +197,8 @@ fn expected(entries: &[(String, usize)], end: &DebuggerEvent, bps: &[String], sc
 }
 
 /// One execution of the scenario (called by shuttle once per schedule). Panics on a violation.
-fn execute(s: &Scenario, entries: &[(String, usize)], end: &DebuggerEvent) {
+fn execute(s: &Scenario, entries: &[(String, usize)], end: &DebuggerEvent, expect_cut: &Option<DebuggerEvent>) {
+    ALL_RULES.with(|a| *a.borrow_mut() = s.all_rules.clone());
     let mut ctx = DebuggerContext::default();
     ctx.load_grammar_direct("g", &s.grammar).expect("grammar loads");
     ctx.load_input_direct(s.input.clone());
@@ -210,6 +255,8 @@ fn execute(s: &Scenario, entries: &[(String, usize)], end: &DebuggerEvent) {
         match s.script.get(k) {
             Some(Act::Add(n)) => ctx.add_breakpoint(n.clone()),
             Some(Act::Del(n)) => ctx.delete_breakpoint(n),
+            Some(Act::AddAll) => ctx.add_all_rules_breakpoints().expect("C17: add_all_rules_breakpoints failed with a loaded grammar"),
+            Some(Act::DelAll) => ctx.delete_all_breakpoints(),
             _ => {}
         }
         if s.rerun_at == Some(k) {
@@ -225,8 +272,21 @@ fn execute(s: &Scenario, entries: &[(String, usize)], end: &DebuggerEvent) {
         ctx.cont().expect("C17: cont() failed while stopped at a breakpoint");
     }
     assert_eq!(got, exp1, "C17: events of the first session differ from the parse's breakpoint hits");
-    if let Some((_old_rx, rx2)) = keep_old_rx {
+    if let Some((old_rx, rx2)) = keep_old_rx {
         assert!(reran);
+        // run() has joined the previous session's thread, so whatever it delivered last is in its channel now.
+        // "Starting a new run terminates the previous one": when the abandoned parse still had rule entries to
+        // make, it must not have run to its natural end (tolerant of *where* it is stopped).
+        let mut tail = vec![];
+        while let Ok(ev) = old_rx.try_recv() {
+            tail.push(ev);
+        }
+        assert!(tail.len() <= 1, "C17: the terminated session delivered {} more events after the re-run", tail.len());
+        if let (Some(ev), Some(cut)) = (tail.last(), expect_cut.as_ref()) {
+            assert!(*ev != *end || *cut == *end, "C17: the previous run was not terminated by the re-run: it ran on to its natural end ({ev:?}) although rule entries remained after the stop point");
+        }
+        // the breakpoint set as the controller left it
+        assert_eq!(ctx.list_breakpoints(), bps_after, "C17: list_breakpoints() differs from the set the commands describe");
         // second session: breakpoints as left by the script, no further actions
         let (exp2, _, _) = expected(entries, end, &bps_after, &[], None);
         let mut got2 = vec![];
@@ -246,7 +306,11 @@ fn execute(s: &Scenario, entries: &[(String, usize)], end: &DebuggerEvent) {
 
 pub fn run_scenario(s: &Scenario) -> Result<(usize, bool), Fail> {
     let Some((entries, end)) = entries_and_end(&s.grammar, &s.rule, &s.input) else { return Ok((0, false)) };
+    ALL_RULES.with(|a| *a.borrow_mut() = s.all_rules.clone());
     let (exp, _, reran) = expected(&entries, &end, &s.breakpoints, &s.script, s.rerun_at);
+    // what a run stopped at the entry after the re-run point delivers (None: no entry remains, or no re-run)
+    let expect_cut: Option<DebuggerEvent> = STOP_IDX.with(|c| c.get()).filter(|i| i + 1 < entries.len()).map(|i| cut_event(&s.grammar, &s.rule, &s.input, i + 1));
+    let expect_cut = StdArc::new(expect_cut);
     let hits = exp.iter().filter(|e| matches!(e, DebuggerEvent::Breakpoint(..))).count();
     let s2 = s.clone();
     let e2 = entries.clone();
@@ -262,7 +326,7 @@ pub fn run_scenario(s: &Scenario) -> Result<(usize, bool), Fail> {
         cfg.silence_warnings = true;
         cfg.failure_persistence = shuttle::FailurePersistence::None;
         cfg.max_steps = shuttle::MaxSteps::FailAfter(150_000);
-        let f = move || execute(&s2, &e2, &end2);
+        let f = move || execute(&s2, &e2, &end2, &expect_cut);
         if s.pct {
             shuttle::Runner::new(shuttle::scheduler::PctScheduler::new_from_seed(s.sched_seed, 3, s.schedules), cfg).run(f);
         } else {
@@ -272,7 +336,11 @@ pub fn run_scenario(s: &Scenario) -> Result<(usize, bool), Fail> {
     match r {
         Ok(()) => Ok((hits, reran)),
         Err(p) => {
-            let sig = if p.contains("re-run while stopped") {
+            let sig = if p.contains("was not terminated by the re-run") {
+                "c17:previous-run-not-terminated"
+            } else if p.contains("list_breakpoints()") {
+                "c17:breakpoint-set"
+            } else if p.contains("re-run while stopped") {
                 "c17:rerun-failed"
             } else if p.contains("deadlock") {
                 "c17:deadlock"
@@ -312,8 +380,9 @@ fn build_scenario(g: &Gram, spec: &InputSpec, ch: &[u16], sched_seed: u64, pct: 
     }
     // breakpoint names: user rules plus a few built-ins the listener also sees
     let mut names = rules.clone();
-    names.push("ANY".into());
-    names.push("EOI".into());
+    for b in ["ANY", "EOI", "SOI", "ASCII_DIGIT", "ASCII_ALPHA", "NEWLINE"] {
+        names.push(b.into());
+    }
     let mut bps = vec![];
     for n in &names {
         if chooser.pick(3) != 0 {
@@ -325,9 +394,11 @@ fn build_scenario(g: &Gram, spec: &InputSpec, ch: &[u16], sched_seed: u64, pct: 
     }
     let mut script = vec![];
     for _ in 0..6 {
-        script.push(match chooser.pick(5) {
-            0 => Act::Add(names[chooser.pick(names.len())].clone()),
-            1 => Act::Del(names[chooser.pick(names.len())].clone()),
+        script.push(match chooser.pick(12) {
+            0 | 1 => Act::Add(names[chooser.pick(names.len())].clone()),
+            2 | 3 => Act::Del(names[chooser.pick(names.len())].clone()),
+            4 => Act::AddAll,
+            5 => Act::DelAll,
             _ => Act::None,
         });
     }
@@ -335,7 +406,8 @@ fn build_scenario(g: &Gram, spec: &InputSpec, ch: &[u16], sched_seed: u64, pct: 
     let rerun_immediately = rerun_at.is_none() && chooser.pick(3) == 0;
     // a rendezvous channel cannot take the previous session's final event during run(): re-runs use capacity >= 1
     let cap = if rerun_immediately { 2 } else if rerun_at.is_some() { 1 + chooser.pick(2) } else { chooser.pick(3) };
-    Some(Scenario { grammar: text, rule, input, breakpoints: bps, script, rerun_at, rerun_immediately, cap, sched_seed, schedules, pct })
+    let all_rules = rule_names(&text);
+    Some(Scenario { grammar: text, rule, input, breakpoints: bps, script, rerun_at, rerun_immediately, cap, sched_seed, schedules, pct, all_rules })
 }
 
 fn run(ctx: &mut Ctx) {
@@ -369,7 +441,7 @@ fn run(ctx: &mut Ctx) {
         let grammar = "alpha = { 'a'..'z' | 'A'..'Z' }\ndigit = { '0'..'9' }\nident = { !digit ~ (alpha | digit)+ }\nident_list = _{ ident ~ (\" \" ~ ident)* }\n";
         for k in 0..4 {
             for bps in [vec!["ident".to_string()], vec!["alpha".to_string(), "ident".to_string()]] {
-                let s = Scenario { grammar: grammar.into(), rule: "ident_list".into(), input: "ab c1".into(), breakpoints: bps, script: vec![], rerun_at: if k == 3 { None } else { Some(k) }, rerun_immediately: k == 3, cap: if k == 3 { 2 } else { 1 }, sched_seed: ctx.seed ^ k as u64, schedules, pct: k % 2 == 0 };
+                let s = Scenario { grammar: grammar.into(), rule: "ident_list".into(), input: "ab c1".into(), breakpoints: bps, script: vec![], rerun_at: if k == 3 { None } else { Some(k) }, rerun_immediately: k == 3, cap: if k == 3 { 2 } else { 1 }, sched_seed: ctx.seed ^ k as u64, schedules, pct: k % 2 == 0, all_rules: rule_names(grammar) };
                 match run_scenario(&s) {
                     Ok(_) => ctx.evals_n(schedules as u64),
                     Err(f) => {
